@@ -16,6 +16,14 @@ Theorem C17_batches_conserve_datadog : forall fmt_s pb mk m,
 Proof. exact conserve_datadog. Qed.
 Print Assumptions C17_batches_conserve_datadog.
 
+(* in particular: with at least one sub-metric enabled and no empty (non-nil) histogram map, no
+   Datadog batch is empty; Proofs/Batching.v has the witnesses that both conditions are needed *)
+Theorem C17_datadog_no_empty_batch : forall fmt_s pb mk m,
+  some_enabled mk = true -> Forall (fun t => ft_hist t <> Some []) (fm_timers m) ->
+  Forall (fun b => b <> []) (datadog_payloads fmt_s pb mk m).
+Proof. exact datadog_no_empty_batch. Qed.
+Print Assumptions C17_datadog_no_empty_batch.
+
 (* New Relic uses the same open-batch machine (flush.go maybeFlush / finish); stated for any
    item type and any per-series groups. *)
 Theorem C17_batches_conserve_newrelic : forall (A : Type) (pb : N) (groups : list (list A)),
